@@ -63,7 +63,7 @@ Emit == Done => PrintT(<<"VEC", ToJson([cls |-> x.cls, neg |-> x.neg, ip |-> x.i
                                          expect |-> Numeral(x, {}), dev |-> DevMap(x)])>>)
 
 (* integer parts for the cfg files (cfg syntax has no tuples) *)
-BigWs_q   == {<<9>>, <<1,0>>, <<9,9>>, <<1,0,0>>}
+BigWs_q   == {<<9>>, <<1,0>>, <<1,0,0>>}
 BigWs_t    == {<<9,9>>, <<1,0,0>>, <<9,9,9>>, <<1,0,0,0>>, <<4,0,9,5>>}
 BigWs_deep == {<<9>>, <<1,0>>, <<9,9>>, <<1,0,0>>, <<1,0,0,0,0,0>>}
 (* long integer parts: the 16-significant-digit cap, powers of ten, 16-digit integer parts *)
